@@ -567,10 +567,10 @@ func (s *Server) FastInvoke(w http.ResponseWriter, i *interop.Invoke, direct boo
 
 			if cachedInitError := s.getCachedInitErrorResponse(); cachedInitError != nil {
 				// /init/error was called
-				s.trySendDefaultErrorResponse(cachedInitError)
+				s.trySendDefaultErrorResponse(invokeID, cachedInitError)
 			} else {
 				// sent only if /error and /response not called
-				s.trySendDefaultErrorResponse(invokeFailure.DefaultErrorResponse)
+				s.trySendDefaultErrorResponse(invokeID, invokeFailure.DefaultErrorResponse)
 			}
 			doneFail := doneFailFromInvokeFailure(invokeFailure)
 			s.InvokeDoneChan <- DoneWithState{
@@ -606,9 +606,15 @@ func (s *Server) getCachedInitErrorResponse() *interop.ErrorInvokeResponse {
 	return s.cachedInitErrorResponse
 }
 
-func (s *Server) trySendDefaultErrorResponse(resp *interop.ErrorInvokeResponse) {
-	if err := s.SendErrorResponse(s.GetCurrentInvokeID(), resp); err != nil {
-		if err != interop.ErrResponseSent {
+func (s *Server) trySendDefaultErrorResponse(invokeID string, resp *interop.ErrorInvokeResponse) {
+	if err := s.SendErrorResponse(invokeID, resp); err != nil {
+		switch err {
+		case interop.ErrResponseSent:
+		case interop.ErrInvalidInvokeID:
+			// the reservation of this invoke has already been released (e.g. by a timeout reset),
+			// there is nobody left to send the default error response to
+			log.Warnf("Default error response for %s dropped: %s", invokeID, err)
+		default:
 			log.Panicf("Failed to send default error response: %s", err)
 		}
 	}
